@@ -151,7 +151,8 @@ static std::vector<double> perturb(char kind, double v) {
 }
 
 // documented exceptions to the NaN rules: (function prefix, argument or "*", what)
-// what: "skip-nan"   the NaN rules are not applied to this argument (the call must still end cleanly);
+// what: "work-scales" finite specials in [1e9, 1e300) are not enumerated for this argument;
+//       "skip-nan"   the NaN rules are not applied to this argument (the call must still end cleanly);
 //       "skip-indep" the rule "independent outputs keep their base value" is not applied (NaN in dependent ones still required)
 struct Exc { const char* fn; const char* arg; const char* what; const char* why; };
 static const std::vector<Exc>& exceptions() {
@@ -160,6 +161,8 @@ static const std::vector<Exc>& exceptions() {
     {"Math::sum", "*", "skip-indep", "t is the round-off of u + v: piecewise constant in each argument, NaN by IEEE arithmetic"},
     {"Math::AngDiff(x,y,e)", "*", "skip-indep", "e is the round-off term of the difference: piecewise constant (0 for most inputs), NaN by IEEE arithmetic"},
     {"Intersect::All", "maxdist", "skip-indep", "maxdist is a threshold: the first intersection does not depend on it, a NaN threshold gives an empty list (reported here as NaN)"},
+    {"Intersect::All", "maxdist", "work-scales", "the number of intersections returned grows like (maxdist / circumference)^2: finite specials >= 1e9 m are legitimate hour-long computations, not hangs, and are not enumerated"},
+    {"Geoid::CacheArea", "*", "skip-nan", "cache set-up function that validates its area: an undefined (NaN) bound is refused with GeographicErr, like a constructor argument"},
     {"UTMUPS::Forward", "*", "skip-indep", "UTMUPS.hpp: zone INVALID is 'equivalent to NaN'; an undefined zone makes every output NaN (k of a UPS point does not depend on lon otherwise)"},
   };
   return t;
@@ -249,7 +252,7 @@ int main(int argc, char** argv) {
       struct Cs { size_t bi, ai; double v; std::string vname; };
       std::vector<Cs> cases;
       if (e.kinds[ai] == 'i') { for (long long x : ISP) if ((double)x != e.bases[bi][ai]) cases.push_back({bi, ai, (double)x, std::to_string(x)}); }
-      else for (auto& x : SP) cases.push_back({bi, ai, x.v, x.name});
+      else for (auto& x : SP) { if (excepted(e, e.in_names[ai], "work-scales") && std::isfinite(x.v) && std::fabs(x.v) >= 1e9 && std::fabs(x.v) < 1e300) { ctx.count("skipped:work-scales"); continue; } cases.push_back({bi, ai, x.v, x.name}); }
       auto fields = [&](const Cs& c, const char* kind) { return mc::Fields{{"kind", kind}, {"family", family}, {"fn", e.name}, {"arg", e.in_names[c.ai]}, {"value", c.vname}, {"class", is_int_kind(e.kinds[c.ai]) ? "int" : fault::value_class(c.v)}}; };
       iso.skip_confirm = [&](size_t i) { return fault::matches_known(ctx, "hang", fields(cases[i], "hang")); };
       double t_unit = ctx.elapsed();
